@@ -2,5 +2,9 @@
 from ..scen_kernels import kernels
 
 
+from ._arith import arithmetic
+
+
 def run(ctx):
     kernels(ctx)
+    arithmetic(ctx, which=None if not ctx.quick else ['add', 'divide', 'abs'])
